@@ -4,4 +4,4 @@
 using namespace simd;
 using zones_t = split_dbm_domain<z_number, varname_t, G_int64>;
 using D = array_adaptive_domain<zones_t>;
-SIM_REGISTER_DOMAIN(aa_zones, D, "aa_zones", CAP_ARRAY | CAP_INT64 | CAP_NTOW | CAP_CORE)
+SIM_REGISTER_DOMAIN(aa_zones, D, "aa_zones", CAP_ARRAY | CAP_INT64 | CAP_NTOW | CAP_CORE | CAP_BACKWARD)
